@@ -3,7 +3,7 @@
 #   tools/try_seeded.sh <dir under seeded/> [check ids...]
 set -u
 cd "$(dirname "$0")/.."
-d="seeded/$1"; shift
+name="$1"; d="seeded/$name"; shift
 [ -f "$d/patch.diff" ] || { echo "no $d/patch.diff"; exit 2; }
 prop=$(python3 -c "import json,sys; print(json.load(open('$d/meta.json'))['property'])")
 checks="${*:-$prop}"
@@ -12,5 +12,5 @@ git -C /repo apply "$PWD/$d/patch.diff" || { echo "patch does not apply"; exit 2
 trap 'git -C /repo checkout -- . ; git -C /repo status --short | grep -v "^??" ' EXIT
 for c in $checks; do
   out=$(./check "$c" --tier quick 2>&1)
-  echo "$out" | grep -E "^(VIOLATION|KNOWN-FINDING|PASS|FAIL)" | cut -c1-220 | sed "s/^/[$1 $c] /"
+  echo "$out" | grep -E "^(VIOLATION|KNOWN-FINDING|PASS|FAIL)" | cut -c1-220 | sed "s/^/[$name $c] /"
 done
